@@ -773,7 +773,8 @@ static int _parse_inline(qaconf_t *qaconf, FILE *fp, uint8_t flags,
             DEBUG("  argv[%d]=%s", cbdata->argc - 1, wp1);
 
             // For quoted string, this case can be happened.
-            if (*wp2 == '\0') {
+            // (when the end was reached, wp2 is already behind the terminator)
+            if (doneparsing == false && *wp2 == '\0') {
                 doneparsing = true;
             }
         }
